@@ -6,12 +6,17 @@ package pkg
 //@ prelude c04 c09
 
 //@ func CompileProfile(profileText string, debug bool, eventChan *chan e.Event) (*rego.PreparedEvalQuery, error)
+//@   requires [C08:not-yet] !opaRejected
+//@   ensures [C08:rejection-is-an-error] opaRejected ==> result1 != nil
+//@   ensures [C08:no-evaluation] opaEvaluated == old(opaEvaluated)
 //@   requires [C11:fresh] eventChan != nil ==> (chanClosed == 0 && !evOpen && evNext == 0)
 //@   ensures [C11:closed-on-error] eventChan != nil ==> (result1 != nil ==> chanClosed == old(chanClosed) + 1)
 //@   ensures [C11:open-on-success] eventChan != nil ==> (result1 == nil ==> chanClosed == old(chanClosed) && !evOpen && evNext == 3)
 //@   ensures [C09:same-as-validate-compiles] result1 == compileErr(profileText) && (result1 == nil ==> result0 != nil && deref(result0) == compiledQuery(profileText))
 
 //@ func Validate(profileText string, jsonldText string, debug bool, eventChan *chan e.Event) (string, error)
+//@   requires [C08:not-yet] !opaRejected && !opaEvaluated
+//@   ensures [C08:nothing-evaluated] opaRejected ==> (result1 != nil && result0 == "" && !opaEvaluated)
 //@   requires [C11:fresh] eventChan != nil ==> (chanClosed == 0 && !evOpen && evNext == 0)
 //@   ensures [C11:closed-once] eventChan != nil ==> chanClosed == old(chanClosed) + 1
 //@   ensures [C04:no-verdict] !jsonTextValid(jsonldText) ==> (result1 != nil && result0 == "")
@@ -22,6 +27,8 @@ package pkg
 //@   ensures [C04:no-verdict] !jsonTextValid(jsonldText) ==> (result1 != nil && result0 == "")
 
 //@ func ValidateWithConfiguration(profileText string, jsonldText string, debug bool, eventChan *chan e.Event, validationConfig c.ValidationConfiguration, reportConfig c.ReportConfiguration) (string, error)
+//@   requires [C08:not-yet] !opaRejected && !opaEvaluated
+//@   ensures [C08:nothing-evaluated] opaRejected ==> (result1 != nil && result0 == "" && !opaEvaluated)
 //@   requires [C11:fresh] eventChan != nil ==> (chanClosed == 0 && !evOpen && evNext == 0)
 //@   ensures [C11:closed-once] eventChan != nil ==> chanClosed == old(chanClosed) + 1
 //@   ensures [C04:no-verdict] !jsonTextValid(jsonldText) ==> (result1 != nil && result0 == "")
